@@ -320,9 +320,15 @@ func mapDynamoToTypesAttributeDefinitionMapOrList(item dynamodbtypes.AttributeVa
 		return &types.Item{M: output}
 	}
 
-	nullTrue := true
+	if itemNULL, ok := item.(*dynamodbtypes.AttributeValueMemberNULL); ok {
+		value := itemNULL.Value
 
-	return &types.Item{NULL: &nullTrue}
+		return &types.Item{NULL: &value}
+	}
+
+	// a missing member (nil) or a member of no known type is no attribute value: it is handed on
+	// without a data type, which every check of attribute values refuses
+	return &types.Item{}
 }
 
 func mapDynamoToTypesDeleteItemInput(input *dynamodb.DeleteItemInput) *types.DeleteItemInput {
